@@ -246,6 +246,56 @@ def check_invalid(case, ctx):
     raise Violation("out-of-range input (%s) accepted: region %r, coordinates %r -> %r" % (case["kind"], region, case["lon"], result))
 
 
+# ---------------------------------------------------------------- large longitude arrays (vectorised oracle on quarter-degree values)
+@st.composite
+def large_cases(draw):
+    w = draw(st.integers(-720, 1440)) / 4.0
+    width = draw(st.one_of(st.integers(0, 1436), st.sampled_from([1440]))) / 4.0
+    conv = draw(st.sampled_from(["0_360", "180", "mixed"]))
+    return dict(W=max(-180.0, min(w, 360.0)), width=width, n=draw(st.sampled_from([20000, 100000])), seed=draw(st.integers(0, 10**6)), conv=conv, shape2d=draw(st.booleans()))
+
+
+def check_large(case, ctx):
+    """10^4 - 10^5 longitudes on the quarter-degree lattice (all arithmetic exact in floating point), in one or in mixed conventions"""
+    W, width = case["W"], case["width"]
+    E = W + width
+    if E > 360.0:
+        W, E = W - 360.0, E - 360.0
+    if W < -180.0 or E > 360.0 or (W < 0 and E > 180 and width < 360):
+        ctx.skip("not_representable")
+    rng = np.random.RandomState(case["seed"])  # a pure function of the generated case
+    n = case["n"]
+    if case["conv"] == "0_360":
+        lon = rng.randint(0, 1441, size=n) / 4.0
+    elif case["conv"] == "180":
+        lon = rng.randint(-720, 721, size=n) / 4.0
+    else:
+        lon = rng.randint(-720, 1441, size=n) / 4.0
+    lat = rng.randint(-80, 81, size=n) / 1.0
+    if case["shape2d"]:
+        lon, lat = lon.reshape(8, -1), lat.reshape(8, -1)
+    region = [W, E, -80.0, 80.0]
+    (lon2, lat2), reg2 = vd.longitude_continuity([lon.copy(), lat.copy()], list(region))
+    lon2 = np.asarray(lon2)
+    W2, E2 = float(reg2[0]), float(reg2[1])
+    ctx.check(lon2.shape == lon.shape and np.array_equal(np.asarray(lat2), lat), "shapes or latitudes changed")
+    ctx.check(np.all(np.mod(lon2 - lon, 360.0) == 0), "returned longitudes are not congruent to the given ones modulo 360")
+    full = width == 360.0
+    if full:
+        ctx.check((W2, E2) == (0.0, 360.0), "full-globe input must become (0, 360), got (%r, %r)", W2, E2)
+    else:
+        ctx.check(E2 - W2 == width and np.mod(W2 - W, 360.0) == 0, "returned arc [%r, %r] is not the given arc [%r, %r]", W2, E2, W, E)
+    inside = np.asarray(vd.inside((lon2, np.asarray(lat2)), reg2))
+    ang = np.mod(lon - W, 360.0)
+    exp = (ang <= width) | full
+    if not np.array_equal(inside, exp):
+        k = np.argwhere(inside != exp)[0]
+        raise Violation("arc [%r, %r] -> [%r, %r], %d longitudes (%s): longitude %r -> %r is %s the returned region but angularly %s the arc" % (
+            W, E, W2, E2, n, case["conv"], float(lon[tuple(k)]), float(lon2[tuple(k)]), "inside" if inside[tuple(k)] else "outside", "inside" if exp[tuple(k)] else "outside"))
+    ctx.label(case["conv"], "n%d" % n, "full" if full else "arc")
+    ctx.nt(0 < width < 360)
+
+
 SUBCHECKS = [
     Sub("lattice", check_arc, enumerate=lattice, shards_quick=16,
         doc="exhaustive (W, E) lattice (5 degrees; thorough adds 1 degree around seams) with probe longitudes on the same lattice; exact oracle"),
@@ -253,4 +303,6 @@ SUBCHECKS = [
         doc="off-lattice bounds/longitudes incl. values a hair from the seams, any latitude bounds, 1-D/2-D arrays"),
     Sub("invalid", check_invalid, strategy=invalid_cases(), quick=300, thorough=1000, shards_thorough=2,
         doc="regions or coordinates outside the accepted degree ranges, or wider than 360, are rejected"),
+    Sub("large", check_large, strategy=large_cases(), quick=12, thorough=80, heavy=True,
+        doc="20 000 - 100 000 longitudes on the quarter-degree lattice, single or mixed conventions, 1-D or 2-D: congruence and angular membership by exact vectorised arithmetic"),
 ]
